@@ -374,3 +374,22 @@ def register() -> None:
     """Entry point of the repo's extension loader (`extensions: [props.components]`)."""
     from semantiva.registry.processor_registry import ProcessorRegistry
     ProcessorRegistry.register_modules(["props.components"])
+
+
+# --- a fitting model for the `model:` parameter shorthand (identity checks) ------------------------
+from semantiva.workflows.fitting_model import FittingModel as _FittingModel
+
+
+class TFitModel(_FittingModel):
+    """Harness fitting model: remembers its keyword arguments; never fits anything."""
+
+    def __init__(self, degree: int = 1, label: str = "", flag: bool = False):
+        self.degree, self.label, self.flag = degree, label, flag
+
+    def fit(self, x_values, y_values):
+        return {"degree": float(self.degree)}
+
+    def __repr__(self) -> str:
+        return f"TFitModel(degree={self.degree!r}, label={self.label!r}, flag={self.flag!r})"
+
+    __str__ = __repr__
